@@ -829,25 +829,23 @@ func (c *Client) handleOutgoing() error {
 			return err
 		}
 
+		if msg.payloadLen != 0 {
+			if msg.payload == nil {
+				return fmt.Errorf("message data is nil, but has length >0 (%v)", msg)
+			}
+
+			// It assumes that msg.payload is cooperating and will return EOF
+			// or another error and blocks until then.
+			if n, err := io.Copy(c.conn, msg.payload); err != nil {
+				return fmt.Errorf("write failed after %d bytes for %v: %w", n, msg, err)
+			}
+		}
+
 		// stop processing messages
 		if msg.typ == MsgCloseConnection {
 			// after CloseConnection, wait for reader to close
 			<-c.done
 			return ErrClientClosed
-		}
-
-		if msg.payloadLen == 0 {
-			continue
-		}
-
-		if msg.payload == nil {
-			return fmt.Errorf("message data is nil, but has length >0 (%v)", msg)
-		}
-
-		// It assumes that msg.payload is cooperating and will return EOF
-		// or another error and blocks until then.
-		if n, err := io.Copy(c.conn, msg.payload); err != nil {
-			return fmt.Errorf("write failed after %d bytes for %v: %w", n, msg, err)
 		}
 	}
 }
